@@ -18,7 +18,9 @@ RULE = (
     "dispatch-regions{nb_cores=N}, N in 2..5 (thorough: also followed by function-constant-pinning). The dispatched function is executed by "
     "all N cores on the simulated cluster under a seeded schedule with stalls; each core's history of executed tagged ops (with evaluated "
     "index operands) and barriers must equal the sequential history of the original program filtered by the rule "
-    "(copy: core N-1 only; generic: core 0 only; everything else: every core); no barrier deadlock. "
+    "(copy: core N-1 only; generic: core 0 only; everything else: every core); no barrier deadlock. Variants: functions grouped in a "
+    "nested builtin.module; streaming accelerators registered under per-configuration names (acc_a / acc_b) with the same program "
+    "compiled for the configuration with the names swapped just before in the same process (compilation history). "
     "non-trivial = dispatching changed the IR and >= 1 dispatchable op executed; distinct = hash of (program, environments)."
 )
 
@@ -41,6 +43,8 @@ def gen_case(rng, tier):
     envs = [B.gen_env(rng, n_cores=n) for _ in range(K_ENVS[tier])]
     envs[0]["stall"] = False
     case = {"ast": ast, "cores": n, "envs": envs, "pin": rng.random() < 0.2 and not prof["multiblock"]}
+    if prof["streams"] and rng.random() < 0.5:
+        case["bind"] = rng.choice(["ab", "ba"])  # the streaming accelerators are registered under names of this configuration
     if rng.random() < 0.15:
         case["nested_module"] = True  # the functions are grouped in a module inside the top-level module (per-cluster code)
     return case
@@ -109,11 +113,26 @@ def execute(case):
     src = B.emit(case["ast"])
     if case.get("nested_module"):
         src = "builtin.module {\n" + src.replace("builtin.module {", "builtin.module @cluster0 {", 1) + "\n}"
+    bind = None
+    if case.get("bind"):
+        # this cluster configuration names its two streaming accelerators acc_a and acc_b; which of them is the XDMA differs
+        # from one compilation of this process to the next
+        x, a = ("acc_a", "acc_b") if case["bind"] == "ab" else ("acc_b", "acc_a")
+        generic = src
+        src = generic.replace('"snax_xdma"', f'"{x}"').replace('"snax_alu"', f'"{a}"')
+        bind = {x: "xdma", a: "alu"}
     n = case["cores"]
     spec = f"dispatch-regions{{nb_cores={n}}}" + (",function-constant-pinning" if case.get("pin") else "")
+    if bind:
+        # the history of this process: the same program was compiled for the other configuration (names swapped) just before;
+        # what a compilation produces must not depend on the compilations before it
+        try:
+            compile_variant(generic.replace('"snax_xdma"', f'"{a}"').replace('"snax_alu"', f'"{x}"'), spec, {a: "xdma", x: "alu"})
+        except Rejected:
+            pass
     try:
-        P = compile_variant(src, None)
-        D = compile_variant(src, spec)
+        P = compile_variant(src, None, bind)
+        D = compile_variant(src, spec, bind)
     except Rejected as r:
         out["status"] = "rejected"
         out["rejected"] = f"{r.stage}:{r.cls}"
@@ -164,6 +183,8 @@ def execute(case):
 def shrink(case):
     if case.get("nested_module"):
         yield {k: v for k, v in case.items() if k != "nested_module"}
+    if case.get("bind") == "ba":
+        yield dict(case, bind="ab")
     if len(case["envs"]) > 1:
         for i in range(len(case["envs"])):
             yield dict(case, envs=[case["envs"][i]])
